@@ -696,3 +696,34 @@ def slice_bounds_rule(run, R="TAB-op"):
                                 ok = True
     run.check(ok, R, R + "|slice|raw-bounds", ev.loc(), "the slice bounds are compared as written and an inverted range fails",
               "the Slice arm of the evaluator has no comparison of the two bounds as written that fails: `x[2:3]` (hi == lo - 1) is answered with an empty value instead of `invalid slice range`")
+
+
+def string_token_rule(run, R="TAB-op"):
+    """sibling agreement of the two readers of a string literal: the escape reader understands an escaped double quote, so the
+    tokenizer that decides where the literal ends has to step over a character that follows a backslash (its scan tests for it)"""
+    from mir import natural_loop
+    tk = run.anchor(R, "syntax::token::check_for_string")
+    rd = run.anchor(R, "syntax::excerpt::excerpt_as_string_contents")
+    if tk is None or rd is None:
+        return
+
+    def char_tests(f, code):
+        out = []
+        for bi, si, st in f.stmts():
+            if st["k"] == "assign" and st["rv"]["k"] == "binop" and st["rv"]["op"] in ("Eq", "Ne"):
+                for o in (st["rv"]["l"], st["rv"]["r"]):
+                    if o.get("ty") == "char" and str(o.get("int")) == str(code):
+                        out.append(bi)
+        for b in f.reachable():
+            t = f.blocks[b]["term"]
+            if t["k"] == "switch" and t.get("discr_ty") == "char" and any(str(v) == str(code) for v, _ in t["targets"]):
+                out.append(b)
+        return out
+    reader_knows_quote = bool(char_tests(rd, 34))
+    in_loop = set()
+    for h in tk.reachable():
+        in_loop |= natural_loop(tk, h)
+    tok_backslash = [b for b in char_tests(tk, 92) if b in in_loop]
+    run.check((not reader_knows_quote) or bool(tok_backslash), R, R + "|string|escaped-quote", tk.loc(),
+              "the string tokenizer steps over escaped characters, so an escaped double quote does not end the literal",
+              "the escape reader implements the escaped double quote, but check_for_string ends the token at the first double quote without looking for a backslash: a literal containing backslash-quote fails with `invalid escape sequence`")
